@@ -328,7 +328,7 @@ def run(c):
         lines += exhaustive(10, 3)
         lines += exhaustive(5, 5)
     else:
-        lines += exhaustive(5, 4)
+        lines += exhaustive(4, 4)
     n_ex = len(lines)
     # random histories on growing domains
     scale = 6 if c.thorough else 1
@@ -373,4 +373,4 @@ def run(c):
                        "0, 1000, 2^31, 2^32-400, histories just below 2^32-1, and histories with MaxAckSet-1..MaxAckSet+20 separated ranges (caps of both headers); "
                        "plus histories outside the guard (wrap, inverted ranges) and malformed lines that are only tied. %d exhaustive, %d wrap-free in total. "
                        "distinct = distinct line text; non-trivial = some observation has at least one range" % (
-                           ex_len, "length 3 over 0..9 and length 5 over 0..4" if c.thorough else "length 4 over 0..4", n_ex, n_guarded))
+                           ex_len, "length 3 over 0..9 and length 5 over 0..4" if c.thorough else "length 4 over 0..3", n_ex, n_guarded))
